@@ -79,9 +79,10 @@ def run(ctx):
     g = cfg(mp)
     probs = []
     req = None
-    for l, (tix, name, _u) in enumerate(mp.locals):
-        if name == "req":
-            req = l
+    # the list of still-required sections: the one user-named Vec<DecType> local (whatever it is called)
+    rc_ = [l for l, (tix, name, _u) in enumerate(mp.locals) if name and l > mp.argc and mp.local_tystr(l).startswith("alloc::vec::Vec<") and "DecType" in mp.local_tystr(l)]
+    if len(rc_) == 1:
+        req = rc_[0]
     if req is None:
         probs.append("local `req` (required sections) not found")
     else:
